@@ -6,7 +6,8 @@
    state and the same policy answers (pol); the submission may use any eviction set.
    (3): the script half is C11's theorem (proofs/ScriptVerifyLemmas.v), restated for all inputs of a transaction: whatever
    passes VerifyScript under STANDARD_SCRIPT_VERIFY_FLAGS passes it under every flag set GetBlockScriptFlags can return
-   (SCR_BLOCK_FLAGS_ALL is regenerated from the compiled tree for every deployment combination of every chain). *)
+   (SCR_BLOCK_FLAGS_ALL is regenerated from the compiled tree for every deployment combination of every chain).  The hash
+   functions, the signature / locktime checker ck and the taproot commitment oracle tap_commit are arbitrary. *)
 From BV Require Import lib.Ints gen.Params_gen model.Locks model.Mempool proofs.MempoolTest.
 From BV Require Import model.Script model.ScriptVerify proofs.ScriptVerifyLemmas.
 From BV Require model.Miner.   (* not used here: the family's one extraction also contains the C23 model *)
@@ -28,12 +29,12 @@ Print Assumptions C28_test_verdict_is_submit_verdict.
 
 (* a transaction all of whose inputs pass the standard script checks passes the consensus script checks of the next
    block, whatever deployments are active for it *)
-Theorem C28_policy_implies_consensus : forall sha256 ripemd160 sha1 ck (inputs : list (bytes * bytes * list bytes)) bf,
+Theorem C28_policy_implies_consensus : forall sha256 ripemd160 sha1 ck tap_commit (inputs : list (bytes * bytes * list bytes)) bf,
   In bf SCR_BLOCK_FLAGS_ALL ->
-  Forall (fun i => verify_script sha256 ripemd160 sha1 SCR_STANDARD_SCRIPT_VERIFY_FLAGS ck (fst (fst i)) (snd (fst i)) (snd i) = Some (Ok tt)) inputs ->
-  Forall (fun i => verify_script sha256 ripemd160 sha1 bf ck (fst (fst i)) (snd (fst i)) (snd i) = Some (Ok tt)) inputs.
+  Forall (fun i => verify_script sha256 ripemd160 sha1 SCR_STANDARD_SCRIPT_VERIFY_FLAGS ck tap_commit (fst (fst i)) (snd (fst i)) (snd i) = Some (Ok tt)) inputs ->
+  Forall (fun i => verify_script sha256 ripemd160 sha1 bf ck tap_commit (fst (fst i)) (snd (fst i)) (snd i) = Some (Ok tt)) inputs.
 Proof.
-  intros sha256 ripemd160 sha1 ck inputs bf Hbf H. eapply Forall_impl; [|exact H].
+  intros sha256 ripemd160 sha1 ck tap_commit inputs bf Hbf H. eapply Forall_impl; [|exact H].
   intros i Hi. eapply policy_implies_consensus; eassumption.
 Qed.
 Print Assumptions C28_policy_implies_consensus.
